@@ -28,7 +28,7 @@ ASSUMPTIONS = ['dict keys are ASCII strings (values may be any str)', 'pandas in
                'pandas extension arrays, datetime64 arrays, sets and functools.partial are outside the universe']
 EXHAUSTIVE = {'quick': False, 'thorough': False}
 
-SCALARS = ('none', 'bool', 'int', 'float', 'npint', 'npint32', 'npfloat', 'npf32', 'npbool', 'nan', 'npnan', 'npf32nan', 'inf', 'flt', 'npflt', 'nat', 'td', 'pytd', 'str', 'npstr', 'dt', 'ts', 'dt64')
+SCALARS = ('none', 'bool', 'int', 'float', 'npint', 'npint32', 'npfloat', 'npf32', 'npbool', 'nan', 'npnan', 'npf32nan', 'inf', 'flt', 'npflt', 'nat', 'td', 'pytd', 'nptd', 'str', 'npstr', 'dt', 'ts', 'dt64')
 NANS = ('nan', 'npnan', 'npf32nan')
 SEQCLS = {'Point': 1, 'P3': 2, 'MyTuple': 3, 'MyList': 4}    # namedtuples (2 / 3 fields), a tuple subclass, a list subclass
 CLS = {'dict': 0, 'Dict': 1, 'FunnyDict': 2, 'OrderedDict': 3}
@@ -39,7 +39,9 @@ DOLD = 715647 * 86400000000 + 1       # 1960-05-17 00:00:00.000001 (before the e
 DFUT = 803169 * 86400000000           # 2200-01-01 (future)
 
 # ------------------------------------------------------------------ value descriptions
+TDUNIT = {'us': 1, 'ms': 1000, 's': 1000000, 'm': 60000000, 'h': 3600000000, 'D': 86400000000}
 def N_(*a): return list(a)
+def PT(fid, args=(), kw=()): return ['partial', fid, list(args), [[k, v] for k, v in kw]]
 def X(f): return ['flt', float(f).hex()]      # any finite float that is not a half-integer, exactly (float.hex)
 def Q(cls, *v): return ['seq', cls, list(v)]
 def I(n): return ['int', n]
@@ -59,12 +61,14 @@ def kind(s):
     if t in SCALARS: return 'scalar'
     if t == 'dict': return 'dict:' + s[1]
     if t == 'seq': return 'seq:' + s[1]
+    if t == 'partial': return 'partial:%d' % s[1]
     return t
 
 def children(s):
     t = s[0]
     if t in ('list', 'tuple'): return s[1]
     if t == 'seq': return s[2]
+    if t == 'partial': return s[2] + [v for _, v in s[3]]
     if t == 'dict': return [v for _, v in s[2]]
     if t == 'arr': return s[3]
     if t == 'series': return s[3]
@@ -90,6 +94,8 @@ def pyrepr(s):
     if t == 'flt': return repr(float.fromhex(s[1]))
     if t == 'npflt': return 'np.float64(%r)' % float.fromhex(s[1])
     if t == 'seq': return '%s(%s)' % (s[1], ', '.join(map(pyrepr, s[2])) if s[1] in ('Point', 'P3') else '[' + ', '.join(map(pyrepr, s[2])) + ']')
+    if t == 'nptd': return 'np.timedelta64(%d, %r)' % (s[2], s[1])
+    if t == 'partial': return 'functools.partial(f%d%s)' % (s[1], ''.join(', ' + pyrepr(a) for a in s[2]) + ''.join(', %s=%s' % (k, pyrepr(v)) for k, v in s[3]))
     if t == 'nat': return 'pd.NaT'
     if t == 'td': return 'pd.Timedelta(microseconds=%d)' % s[1]
     if t == 'pytd': return 'datetime.timedelta(microseconds=%d)' % s[1]
@@ -135,6 +141,9 @@ def coq_val(s, ids):
     if t in ('str', 'npstr'): return '(VStr %s)' % coq_str(s[1])
     if t in ('dt', 'ts', 'dt64'): return '(VDate (%d))' % s[1]
     if t == 'nat': return '(VDate (-1))'                      # the NaT singleton: a reserved date, equal only to itself
+    if t == 'nptd': return '(VFlt (%d) (1000000))' % (s[2] * TDUNIT[s[1]])
+    if t == 'partial':     # eq compares type, func, keywords (a dict) and args (a tuple): a container kind of its own per function
+        return '(VSeq %d%%N [%s; %s])' % (10 + s[1], coq_val(['tuple', s[2]], ids), coq_val(['dict', 'dict', s[3]], ids))
     if t in ('td', 'pytd'): return '(VFlt (%d) (1000000))' % s[1]   # a timedelta of n microseconds: a reserved exponent, equal only to the same timedelta
     cl = lambda xs: '[' + '; '.join(coq_val(x, ids) for x in xs) + ']'
     if t == 'list': return '(VList %s)' % cl(s[1])
@@ -173,6 +182,7 @@ def scalar_key(s):
     if t in ('dt', 'ts', 'dt64'): return ('date', s[1])
     if t == 'nat': return ('nat',)
     if t in ('td', 'pytd'): return ('td', s[1])
+    if t == 'nptd': return ('td', s[2] * TDUNIT[s[1]])
     raise ValueError(s)
 
 def all3(rs):
@@ -196,6 +206,8 @@ def spec3(x, y, path='value'):
         return all3(cells(x[1], y[1], path))
     if kx.startswith('seq'):
         return all3(cells(x[2], y[2], path))
+    if kx.startswith('partial'):
+        return (None, 'functools.partial is outside the universe')
     if kx.startswith('dict'):
         dx, dy = dict(map(tuple, x[2])), dict(map(tuple, y[2]))
         if set(dx) != set(dy):
@@ -215,8 +227,9 @@ def spec3(x, y, path='value'):
 
 # ------------------------------------------------------------------ implementation side
 def impl_setup():
-    global np, pd, datetime, collections, eq, in_, veq, Dict, FunnyDict, us2dt, SEQTYPES
-    import numpy as np, pandas as pd, datetime, collections
+    global np, pd, datetime, collections, functools, eq, in_, veq, Dict, FunnyDict, us2dt, SEQTYPES, PFUNCS
+    import numpy as np, pandas as pd, datetime, collections, functools
+    PFUNCS = [lambda *a, **k: 0, lambda *a, **k: 1]
     from pyg_base import eq, in_, Dict
     from pyg_base._eq import veq
     from implutil import us2dt
@@ -249,6 +262,8 @@ def build(s):
     if t == 'seq':
         vals = [build(v) for v in s[2]]
         return SEQTYPES[s[1]](*vals) if s[1] in ('Point', 'P3') else SEQTYPES[s[1]](vals)
+    if t == 'nptd': return np.timedelta64(s[2], s[1])
+    if t == 'partial': return functools.partial(PFUNCS[s[1]], *[build(a) for a in s[2]], **{k: build(v) for k, v in s[3]})
     if t == 'nat': return pd.NaT
     if t == 'td': return pd.Timedelta(microseconds=s[1])
     if t == 'pytd': return datetime.timedelta(microseconds=s[1])
@@ -307,6 +322,12 @@ def bad(o, call):
     return None
 
 def impl(case):
+    r = impl_(case)
+    if '"partial"' in json.dumps(case):
+        r['viol'] = None      # functools.partial is outside the property's universe: compared with the model only (correspondence)
+    return r
+
+def impl_(case):
     k = case['kind']
     if k == 'pair':
         x = build(case['x']); y = x if case.get('same') else build(case['y'])
@@ -512,6 +533,9 @@ def universe():
           FR('float', [I(0)], [S('a'), S('b')], [X(f3), F(3)]), FR('float', [I(0)], [S('a'), S('b')], [X(g3), F(3)]), FR('float', [I(0)], [S('a'), S('b')], [X(h3), NAN])]
     ns = lambda us: (us - 719163 * 86400000000) * 1000          # epoch nanoseconds of a model timestamp
     ix = [I(0), I(1)]
+    U += [['nptd', 's', 1], ['nptd', 'D', 1], ['nptd', 'us', 1000000], ['nptd', 's', 2], ['nptd', 'ms', 1000], I(86400), I(1000000), F(2000000), L(['nptd', 's', 1]), L(I(1)),
+          A('object', [1], [['nptd', 's', 1]]), D([('a', ['nptd', 'D', 1])]), D([('a', I(1))]),
+          PT(0, [I(1)]), PT(1, [I(1)]), PT(0, [I(1)], [('a', I(2))]), PT(0, [I(1)], [('a', F(4))]), PT(0), PT(0, [NAN]), L(PT(0, [I(1)]))]
     U += [['nat'], ['td', 1000000], ['pytd', 1000000], ['td', 2000000], L(['nat']), L(['td', 1000000]),
           SR('dt64ns', ix, [['ts', D1], ['ts', D2]]), SR('dt64ns', ix, [['ts', D1], ['nat']]), SR('dt64ns', ix, [['ts', D1], ['ts', D3]]), SR('int', ix, [I(ns(D1)), I(ns(D2))]),
           SR('object', ix, [['ts', D1], ['ts', D2]]), SR('object', ix, [['ts', D1], ['none']]), SR('object', ix, [['ts', D1], NAN]), SR('object', ix, [['ts', D1], ['nat']]),
@@ -542,7 +566,7 @@ def universe():
     return U
 
 SC_POOL = [['none'], ['bool', True], I(0), I(1), I(2), I(-3), F(2), F(3), F(5), ['npint', 1], ['npint', 2], ['npfloat', 2], NAN, ['npnan'], ['inf', False], ['inf', True],
-           ['npint32', 2], ['npf32', 3], ['npf32nan'], X(0.3), X(0.1 + 0.2), ['npflt', float(0.3).hex()], X(1e-9), ['dt', D3], ['ts', DFUT], ['dt64', DOLD], I(2 ** 40 + 1),
+           ['npint32', 2], ['npf32', 3], ['npf32nan'], ['nptd', 's', 1], ['nptd', 'D', 1], ['td', 1000000], X(0.3), X(0.1 + 0.2), ['npflt', float(0.3).hex()], X(1e-9), ['dt', D3], ['ts', DFUT], ['dt64', DOLD], I(2 ** 40 + 1),
            S('a'), S('b'), S('ab'), ['npstr', 'a'], ['dt', D1], ['ts', D1], ['dt64', D2], ['dt', D2]]
 KEYS = ['a', 'b', 'c', 'ab', 'B', 'a1', 'z']
 
@@ -611,7 +635,9 @@ def variant(rng, s):
     if t in ('dt', 'ts', 'dt64'): return [rng.choice(['dt', 'ts', 'dt64']), s[1]]
     if t in ('flt', 'npflt'): return [rng.choice(['flt', 'npflt']), s[1]]
     if t == 'seq': return ['seq', s[1], [variant(rng, v) for v in s[2]]]
-    if t in ('td', 'pytd'): return [rng.choice(['td', 'pytd']), s[1]]
+    if t in ('td', 'pytd'): return rng.choice([['td', s[1]], ['pytd', s[1]], ['nptd', 'us', s[1]]])
+    if t == 'nptd': return rng.choice([['nptd', 'us', s[2] * TDUNIT[s[1]]], ['td', s[2] * TDUNIT[s[1]]], ['nptd', s[1], s[2]]])
+    if t == 'partial': return ['partial', s[1], [variant(rng, a) for a in s[2]], [[k, variant(rng, v)] for k, v in s[3]]]
     if t in ('list', 'tuple'): return [t, [variant(rng, v) for v in s[1]]]
     if t == 'dict':
         items = [[k, variant(rng, v)] for k, v in s[2]]
@@ -652,6 +678,7 @@ def mutate_scalar(rng, s):
     if t == 'none': return rng.choice([I(0), NAN, S('None')])
     if t == 'nat': return ['ts', D1]
     if t in ('td', 'pytd'): return [t, s[1] + 1000000]
+    if t == 'nptd': return rng.choice([['nptd', s[1], s[2] + 1], ['nptd', 'D' if s[1] != 'D' else 's', s[2]], I(s[2])])
     if t in ('bool', 'npbool'): return [t, not s[1]]
     if t == 'inf': return ['inf', not s[1]]
     return s
@@ -675,6 +702,8 @@ def mutant(rng, s):
         if t == 'dict': s[2][i][1] = new
         else: kids[i] = new
         return s
+    if t == 'partial':
+        return rng.choice([['partial', 1 - s[1], s[2], s[3]], ['partial', s[1], s[2] + [I(9)], s[3]], ['partial', s[1], s[2], s[3] + [['zz', I(1)]]], T(*s[2])])
     if t == 'seq':
         plainkind = 'list' if s[1] == 'MyList' else 'tuple'
         return rng.choice([[plainkind, s[2]], [plainkind, s[2]], ['seq', 'MyTuple' if s[1] != 'MyTuple' else 'MyList', s[2]]])
